@@ -44,8 +44,9 @@ TOK = re.compile(r"""
    (?P<ws>\s+)
  | (?P<num>\d[\d_]*(?:u8|u16|u32|u64|u128|usize|i8|i16|i32|i64|isize)?)
  | (?P<life>'[A-Za-z_][A-Za-z0-9_]*(?!'))
+ | (?P<str>"(?:[^"\\]|\\.)*")
  | (?P<id>[A-Za-z_][A-Za-z0-9_]*)
- | (?P<sym>::|->|=>|\+=|-=|\*=|==|!=|&&|\|\||[-+*/%&|!<>=(){}\[\];,.:?\#])
+ | (?P<sym>::|->|=>|\+=|-=|\*=|==|!=|<=|&&|\|\||[-+*/%&|!<>=(){}\[\];,.:?\#])
 """, re.X)
 
 
@@ -125,7 +126,7 @@ def find_fn(src, impl_re, fname):
 # ------------------------------------------------------------------ parser (AST = tuples)
 
 class Parser:
-    BIN = {'||': 1, '&&': 2, '==': 3, '!=': 3, '+': 6, '-': 6, '*': 7}
+    BIN = {'||': 1, '&&': 2, '==': 3, '!=': 3, '<': 3, '<=': 3, '+': 6, '-': 6, '*': 7, '/': 7}
     ASSIGN = ('=', '+=', '-=', '*=')
 
     def __init__(self, toks, what):
@@ -242,8 +243,10 @@ class Parser:
                 stmts.append(('return', e))
             elif self.at('{'):
                 stmts.append(('block', self.block()))
-            elif self.peek()[0] == 'id' and self.peek()[1] in ('for', 'while', 'loop', 'match', 'unsafe', 'break', 'continue'):
+            elif self.peek()[0] == 'id' and self.peek()[1] in ('for', 'while', 'loop', 'unsafe', 'break', 'continue'):
                 self.err('unsupported statement `%s`' % self.peek()[1])
+            elif self.peek()[0] == 'id' and self.peek(1) == ('sym', '!') and self.peek(2) == ('sym', '('):
+                stmts.append(self.macro())
             else:
                 e = self.expr(0)
                 if self.peek()[0] == 'sym' and self.peek()[1] in self.ASSIGN:
@@ -261,15 +264,52 @@ class Parser:
         self.expect('}')
         return (stmts, tail)
 
+    def macro(self):
+        """`debug_assert!(cond [, "message" ..]);` -- the only macro of the subset"""
+        name = self.ident()
+        self.next()
+        if name != 'debug_assert':
+            self.err('unsupported macro `%s!`' % name)
+        self.expect('(')
+        saved, self.nostruct = self.nostruct, False
+        c = self.expr(0)
+        self.nostruct = saved
+        d = 0
+        while not (self.at(')') and d == 0):
+            x = self.next()
+            if x[0] == 'eof':
+                self.err('unterminated macro call')
+            if x[0] == 'sym' and x[1] in ('(', '[', '{'):
+                d += 1
+            elif x[0] == 'sym' and x[1] in (')', ']', '}'):
+                d -= 1
+            elif d == 0 and x[0] not in ('str',) and x != ('sym', ','):
+                self.err('unsupported `debug_assert!` arguments')
+        self.expect(')')
+        self.accept(';')
+        return ('dassert', c)
+
     def let(self):
         self.expect('let')
-        mut = self.accept('mut')
-        if self.peek()[0] != 'id':
-            self.err('unsupported let pattern')
-        name = self.ident()
+        names = None
+        if self.at('('):
+            self.next()
+            names = []
+            while not self.at(')'):
+                self.accept('mut')
+                names.append(self.ident())
+                if not self.accept(','):
+                    break
+            self.expect(')')
+            mut, name = True, None
+        else:
+            mut = self.accept('mut')
+            if self.peek()[0] != 'id':
+                self.err('unsupported let pattern')
+            name = self.ident()
         if self.accept(':'):
             d = 0
-            while not (self.at('=') and d == 0):
+            while not ((self.at('=') or self.at(';')) and d == 0):
                 x = self.next()
                 if x[0] == 'eof':
                     self.err('unterminated type annotation')
@@ -277,11 +317,15 @@ class Parser:
                     d += 1
                 elif x[1] in ('>', ')', ']'):
                     d -= 1
+        if names is None and self.accept(';'):
+            return ('letdecl', name, name)
         if not self.at('='):
             self.err('let without initialiser')
         self.expect('=')
         e = self.expr(0)
         self.expect(';')
+        if names is not None:
+            return ('lettuple', names, e)
         return ('let', name, mut, e)
 
     def if_(self):
@@ -315,12 +359,37 @@ class Parser:
                 el = self.block()
         return ('if', c, th, el)
 
+    def match_bool(self):
+        """`match c { true => a, false => b }` is an `if` expression; nothing else is supported"""
+        self.expect('match')
+        saved, self.nostruct = self.nostruct, True
+        c = self.expr(0)
+        self.nostruct = saved
+        self.expect('{')
+        arms = {}
+        while not self.at('}'):
+            pat = self.next()
+            if pat not in (('id', 'true'), ('id', 'false')) or pat[1] in arms:
+                self.err('unsupported `match` pattern `%s`' % pat[1])
+            self.expect('=>')
+            if self.at('{'):
+                arms[pat[1]] = self.block()
+            else:
+                saved, self.nostruct = self.nostruct, False
+                arms[pat[1]] = ([], self.expr(0))
+                self.nostruct = saved
+            self.accept(',')
+        self.expect('}')
+        if sorted(arms) != ['false', 'true']:
+            self.err('`match` on a boolean needs both arms')
+        return ('ifexpr', c, arms['true'], arms['false'])
+
     def expr(self, minp):
         l = self.unary()
         while True:
             x = self.peek()
             if x[0] != 'sym' or x[1] not in self.BIN or self.BIN[x[1]] < minp:
-                if x[0] == 'sym' and x[1] in ('/', '%', '<', '>', '|', '&', '?') and minp == 0:
+                if x[0] == 'sym' and x[1] in ('%', '>', '|', '&') and minp == 0:
                     self.err('unsupported operator `%s`' % x[1])
                 return l
             op = self.next()[1]
@@ -370,7 +439,10 @@ class Parser:
                     e = ('field', e, name)
             elif self.at('(') and e[0] == 'path':
                 e = ('call', e, self.args())
-            elif self.at('[') or self.at('?'):
+            elif self.at('?'):
+                self.next()
+                e = ('try', e)
+            elif self.at('['):
                 self.err('unsupported postfix `%s`' % self.peek()[1])
             else:
                 return e
@@ -454,8 +526,23 @@ class Parser:
             if len(segs) < 2:
                 self.err('unsupported qualified path')
             return ('path', segs)
+        if x == ('id', 'if'):
+            s = self.if_()
+            if s[0] != 'if' or s[3] is None:
+                self.err('`if` expression without `else`')
+            return ('ifexpr', s[1], s[2], s[3])
+        if x == ('id', 'match'):
+            return self.match_bool()
+        if x == ('sym', '{'):
+            saved, self.nostruct = self.nostruct, False
+            b = self.block()
+            self.nostruct = saved
+            return ('blockexpr', b)
+        if x[0] == 'str':
+            self.next()
+            return ('str', x[1])
         if x[0] == 'id':
-            if x[1] in ('if', 'match', 'loop', 'while', 'for', 'unsafe', 'move', 'let'):
+            if x[1] in ('loop', 'while', 'for', 'unsafe', 'move', 'let'):
                 self.err('unsupported expression `%s`' % x[1])
             segs = [self.ident()]
             while self.at('::'):
@@ -483,12 +570,116 @@ def contains_return(block):
     return False
 
 
+def contains_exit(node):
+    """does the AST contain a possible early exit (`?`, `.expect()`, `.unwrap()`, `/`, `debug_assert!`)"""
+    if isinstance(node, tuple):
+        if node and node[0] in ('try', 'dassert'):
+            return True
+        if node and node[0] == 'mcall' and node[2] in ('expect', 'unwrap'):
+            return True
+        if node and node[0] == 'bin' and node[1] == '/':
+            return True
+        return any(contains_exit(x) for x in node)
+    if isinstance(node, list):
+        return any(contains_exit(x) for x in node)
+    return False
+
+
+def block_value(block):
+    """(stmts, value expression) of a block in value position: a final `if .. else ..` statement
+    is the value"""
+    stmts, tail = block
+    if tail is None and stmts and stmts[-1][0] == 'if' and stmts[-1][3] is not None:
+        s = stmts[-1]
+        return list(stmts[:-1]), ('ifexpr', s[1], s[2], s[3])
+    return list(stmts), tail
+
+
+def pure_value(e):
+    """an `if`/block expression that can be evaluated in place (no statements, no exits)"""
+    if e[0] == 'ifexpr':
+        for b in (e[2], e[3]):
+            st, t = block_value(b)
+            if st or t is None or contains_exit(t) or not pure_value(t):
+                return False
+        return not contains_exit(e[1])
+    if e[0] == 'blockexpr':
+        st, t = block_value(e[1])
+        return not st and t is not None and not contains_exit(t) and pure_value(t)
+    return True
+
+
+class Lifter:
+    """statement-level desugaring: `let p = if c {..; a} else {..; b};` (branches with statements or
+    exits), `let (a, b) = ..;` and `let v = { ..; e };` become a declaration of fresh temporaries,
+    the `if` / block as a statement assigning them, and `let p = temporary;`"""
+
+    def __init__(self, what):
+        self.n, self.what = 0, what
+
+    def fresh(self):
+        self.n += 1
+        return '__t%d' % self.n
+
+    def stmts(self, stmts):
+        out = []
+        for s in stmts:
+            out += self.stmt(s)
+        return out
+
+    def block(self, b):
+        if b is None:
+            return None
+        return (self.stmts(b[0]), b[1])
+
+    def stmt(self, s):
+        if s[0] == 'let' and s[3][0] in ('ifexpr', 'blockexpr') and not pure_value(s[3]):
+            t = self.fresh()
+            return [('letdecl', t, s[1])] + self.assign_value([t], s[3]) + [('let', s[1], s[2], ('path', [t]))]
+        if s[0] == 'lettuple':
+            ts = [self.fresh() for _ in s[1]]
+            return [('letdecl', t, n) for t, n in zip(ts, s[1])] + self.assign_value(ts, s[2]) + \
+                [('let', n, True, ('path', [t])) for t, n in zip(ts, s[1])]
+        if s[0] == 'assign' and s[1] == '=' and s[3][0] in ('ifexpr', 'blockexpr') and not pure_value(s[3]):
+            if s[2][0] != 'path' or len(s[2][1]) != 1:
+                raise TranslateError('%s: conditional value assigned to a compound place' % self.what)
+            return self.assign_value([s[2][1][0]], s[3])
+        if s[0] == 'if':
+            return [('if', s[1], self.block(s[2]), self.block(s[3]))]
+        if s[0] == 'iflet':
+            return [('iflet', s[1], s[2], self.block(s[3]), self.block(s[4]))]
+        if s[0] == 'block':
+            return [('block', self.block(s[1]))]
+        return [s]
+
+    def assign_value(self, targets, e):
+        if e[0] == 'ifexpr':
+            return [('if', e[1], (self.assign_block(targets, e[2]), None), (self.assign_block(targets, e[3]), None))]
+        if e[0] == 'blockexpr':
+            return [('block', (self.assign_block(targets, e[1]), None))]
+        if len(targets) == 1:
+            return [('assign', '=', ('path', [targets[0]]), e)]
+        if e[0] == 'tuple' and len(e[1]) == len(targets):
+            return [('assigntuple', targets, e[1])]
+        raise TranslateError('%s: tuple pattern initialised by something else than a tuple' % self.what)
+
+    def assign_block(self, targets, b):
+        stmts, tail = block_value(b)
+        if tail is None:
+            raise TranslateError('%s: block without a value in value position' % self.what)
+        return self.stmts(stmts) + self.assign_value(targets, tail)
+
+
 def tailify(block):
     """value position: the tail expression of the block (or of the branches of a final `if`)
     becomes an explicit `return`"""
     stmts, tail = block
     stmts = list(stmts)
-    if tail is not None:
+    if tail is not None and tail[0] == 'ifexpr':
+        stmts.append(('if', tail[1], tailify(tail[2]), tailify(tail[3])))
+    elif tail is not None and tail[0] == 'blockexpr':
+        stmts.append(('block', tailify(tail[1])))
+    elif tail is not None:
         stmts.append(('return', tail))
     elif stmts and stmts[-1][0] == 'if' and stmts[-1][3] is not None:
         s = stmts[-1]
@@ -508,6 +699,15 @@ TYPES = {
     'QuadCubic': [('c0', 'Cubic'), ('c1', 'Cubic')],
     # short Weierstrass Affine as the Rust struct (x, y, infinity)
     'SWAffS': [('x', 'K'), ('y', 'K'), ('infinity', 'bool')],
+    # phase 3: a pair of scalars (Option<(F, F)> payloads), affine points over a quadratic extension
+    'PairK': [('0', 'K'), ('1', 'K')],
+    'SWAffSQ': [('x', 'Quad'), ('y', 'Quad'), ('infinity', 'bool')],
+}
+# phase 3: enumerations of the generated file (constructor names per Rust variant)
+ENUMS = {
+    'SWFlags': ('gen_swflags', {'PointAtInfinity': 'GPointAtInfinity', 'YIsPositive': 'GYIsPositive',
+                                'YIsNegative': 'GYIsNegative'}),
+    'TEFlags': ('gen_teflags', {'XIsPositive': 'GXIsPositive', 'XIsNegative': 'GXIsNegative'}),
 }
 # degree of the struct over its scalar type (for Self::extension_degree())
 DEGREE = {'Quad': 2, 'Cubic': 3}
@@ -520,6 +720,10 @@ def gty(ty):
         return 'bool'
     if ty == 'SWAff':
         return 'option (T * T)'
+    if ty == 'Scalar':
+        return 'Z'
+    if ty.startswith('enum:'):
+        return ENUMS[ty[5:]][0]
     if ty.startswith('opt:'):
         return 'option %s' % gty(ty[4:])
     return '(' + ' * '.join(gty(t) for _, t in TYPES[ty]) + ')'
@@ -698,6 +902,8 @@ class Exec:
         v = slot.val
         if isinstance(v, Ref):
             return self.read(v.slot, v.path + path)
+        if v is None:
+            self.err('use of the uninitialised variable `%s`' % slot.hint)
         if not isinstance(v, Val):
             self.err('not a value')
         for p in path:
@@ -709,6 +915,11 @@ class Exec:
             return self.write(slot.val.slot, slot.val.path + path, val)
         hint = slot.hint if slot.hint != 'self' else ''
         hint = '_'.join([hint] * bool(hint) + path) or self.tgt.get('selfparam', 's')
+        if slot.val is None:
+            if path:
+                self.err('field of an uninitialised variable')
+            slot.val = self.bind(hint, val)
+            return
         old = self.read(slot, path)
         if old.ty != val.ty:
             self.err('assignment of a %s to a place of type %s' % (val.ty, old.ty))
@@ -793,6 +1004,8 @@ class Exec:
                 return self.rv(self.eval(e[2], env))
             v = self.rv(self.eval(e[2], env))
             if op == '-':
+                if v.ty not in self.dict and (v.ty, 'neg') in self.methods() and self.methods()[(v.ty, 'neg')].get('byvalue'):
+                    return self.call_target(self.methods()[(v.ty, 'neg')], (Slot(v, 'tmp'), []), [], env)
                 return Val(v.ty, expr=app('fneg ' + self.dict_of(v.ty), self.whole(v)))
             if op == '!':
                 if v.ty != 'bool':
@@ -806,7 +1019,28 @@ class Exec:
                 return Val('intarr', items=[int(v.expr) for v in items])
             return Val('arr', items=items)
         if k == 'tuple':
+            items = [self.rv(self.eval(x, env)) for x in e[1]]
+            if len(items) == 2 and all(v.ty == 'K' for v in items):
+                return self.construct('PairK', items)
             self.err('unsupported tuple expression')
+        if k == 'str':
+            return Val('str', expr=e[1])
+        if k == 'ifexpr':
+            return self.eval_ifexpr(e, env)
+        if k == 'blockexpr':
+            st, t = block_value(e[1])
+            if st or t is None:
+                self.err('block expression with statements inside a larger expression')
+            return self.eval(t, env)
+        if k == 'try':
+            o = self.rv(self.eval(e[1], env))
+            if o.ty != 'optsqrt':
+                self.err('`?` on something else than `x.sqrt()`')
+            if not self.tgt['ret'].startswith('opt:'):
+                self.err('`?` in a function that does not return an Option')
+            n = self.fresh('y')
+            self.cur.append(('matchopt', o.expr, n, 'GRet None' if self.tgt.get('may_panic') else 'None'))
+            return Val('K', expr=n)
         if k == 'call':
             return self.eval_call(e[1][1], e[2], env)
         if k == 'mcall':
@@ -828,7 +1062,39 @@ class Exec:
             self.err('closure outside `.map(..)`')
         self.err('unsupported expression %r' % (k,))
 
+    def eval_ifexpr(self, e, env):
+        """`if c { a } else { b }` with pure branches, inside a larger expression"""
+        c = self.rv(self.eval(e[1], env))
+        if c.ty != 'bool':
+            self.err('`if` on a non-boolean')
+        vals = []
+        for b in (e[2], e[3]):
+            st, t = block_value(b)
+            if st or t is None:
+                self.err('conditional expression with statements inside a larger expression')
+            saved, self.cur = self.cur, []
+            v = self.rv(self.eval(t, env.clone()))
+            lets, self.cur = self.cur, saved
+            if lets:
+                self.err('side effects inside a conditional expression')
+            vals.append(v)
+        a, b = vals
+        if a.ty != b.ty and not (a.ty.startswith('opt:') and b.ty.startswith('opt:') and '?' in (a.ty[4:], b.ty[4:])):
+            self.err('conditional expression with branches of types %s and %s' % (a.ty, b.ty))
+        ty = a.ty if a.ty != 'opt:?' else b.ty
+        wa = a.expr if a.ty.startswith('opt:') else self.whole(a)
+        wb = b.expr if b.ty.startswith('opt:') else self.whole(b)
+        return Val(ty, expr='(if %s then %s else %s)' % (c.expr, wa, wb))
+
     def eval_path(self, segs, env):
+        full = '::'.join(segs)
+        if full in self.hooks and self.hooks[full]['kind'] == 'const' and (len(segs) > 1 or env.lookup(full) is None):
+            return Val(self.hooks[full]['ret'], expr=self.hooks[full]['param'])
+        if len(segs) == 2 and segs[0] in self.tgt.get('enums', {}):
+            en = self.tgt['enums'][segs[0]]
+            if segs[1] not in ENUMS[en][1]:
+                self.err('unknown variant %s' % full)
+            return Val('enum:' + en, expr=ENUMS[en][1][segs[1]])
         if len(segs) == 1:
             n = segs[0]
             if n == 'None':
@@ -838,6 +1104,8 @@ class Exec:
             sl = env.lookup(n)
             if sl is None:
                 self.err('unknown identifier `%s`' % n)
+            if sl.val is None:
+                self.err('use of the uninitialised variable `%s`' % n)
             if isinstance(sl.val, (Ref, HookAlias)):
                 return sl.val
             return sl.val
@@ -852,6 +1120,8 @@ class Exec:
         self.err('unknown path `%s`' % '::'.join(segs))
 
     def hook_for(self, segs):
+        if '::'.join(segs) in self.hooks and len(segs) > 1:
+            return self.hooks['::'.join(segs)]
         if len(segs) in (2, 3) and (segs[0] in ('P', 'Self') or segs[0].startswith('<')) and segs[-1] in self.hooks \
            and (len(segs) == 2 or segs[1].endswith('Config')):
             return self.hooks[segs[-1]]
@@ -866,9 +1136,26 @@ class Exec:
             if l.ty != 'bool' or r.ty != 'bool':
                 self.err('`%s` on non-booleans' % op)
             return Val('bool', expr=app('andb' if op == '&&' else 'orb', l.expr, r.expr))
+        if op in ('<', '<='):
+            if op not in self.hooks or l.ty != 'K' or r.ty != 'K':
+                self.err('unsupported comparison %s %s %s' % (l.ty, op, r.ty))
+            return Val('bool', expr=app(self.hooks[op]['param'], l.expr, r.expr))
+        if op == '/':
+            if l.ty != 'K' or r.ty != 'K':
+                self.err('`/` on non-scalars')
+            if not self.tgt.get('may_panic'):
+                self.err('`/` (panics on zero) in a function not declared may_panic')
+            d = self.bind('d', r)
+            self.cur.append(('guard', app('fis0 F', d.expr)))
+            return Val('K', expr=app('fmul F', l.expr, app('finv F', d.expr)))
         if op in ('==', '!='):
             if l.ty == 'nat' and r.ty == 'int':
                 t = app('Nat.eqb', l.expr, r.expr + '%nat')
+            elif l.ty == 'bool' and r.ty == 'bool':
+                t = app('Bool.eqb', l.expr, r.expr)
+            elif l.ty == r.ty and l.ty not in self.dict and (l.ty, 'eq') in self.methods():
+                d = self.methods()[(l.ty, 'eq')]
+                t = self.call_target(d, (Slot(l, 'tmp'), []), [], env, vals=[r]).expr
             elif l.ty == r.ty and l.ty in self.dict:
                 t = app('feqb ' + self.dict[l.ty], self.whole(l), self.whole(r))
             else:
@@ -907,6 +1194,19 @@ class Exec:
             return Val('opt:' + v.ty, expr=app('Some', self.whole(v)))
         if last in ('zero', 'one') and len(segs) == 3 and segs[-2] == 'BaseField' and segs[0] in ('P', 'Self') and not args:
             return self.const('f0' if last == 'zero' else 'f1')
+        if last in ('zero', 'one') and len(segs) == 2 and not args and \
+           re.match(r'^<(P|Self) :: BaseField as (Zero|One)>$', segs[0]) and (last == 'zero') == segs[0].endswith('Zero>'):
+            return self.const('f0' if last == 'zero' else 'f1')
+        if segs == ['Ok'] and len(args) == 1 and self.tgt.get('result_ok'):
+            return self.eval(args[0], env)
+        full = '::'.join(segs)
+        if full in self.hooks and self.hooks[full]['kind'] == 'const' and not args and self.hooks[full].get('call'):
+            return Val(self.hooks[full]['ret'], expr=self.hooks[full]['param'])
+        if len(segs) == 1 and segs[0] in self.hooks and self.hooks[segs[0]]['kind'] == 'fn' and env.lookup(segs[0]) is None:
+            return self.call_hook(self.hooks[segs[0]], args, env)
+        if len(segs) == 2 and segs[0] in self.tgt.get('ctors', {}) and (self.tgt['ctors'][segs[0]], last) in self.methods() \
+           and not self.methods()[(self.tgt['ctors'][segs[0]], last)].get('method', True):
+            return self.call_target(self.methods()[(self.tgt['ctors'][segs[0]], last)], None, args, env)
         if last == 'extension_degree' and not args:
             if len(segs) == 3 and segs[-2] == 'BaseField' and segs[0] in ('P', 'Self'):
                 return Val('nat', expr='(fdeg F)')
@@ -994,9 +1294,9 @@ class Exec:
         return res
 
     def methods(self):
-        return {(d['selfty'], d['fn']): d for d in self.defs if 'out' not in d and d.get('selfty')}
+        return {(d['selfty'], d.get('callname', d['fn'])): d for d in self.defs if 'out' not in d and d.get('selfty')}
 
-    def call_target(self, d, recv_place, args, env):
+    def call_target(self, d, recv_place, args, env, vals=None):
         """call of another translated function"""
         mine = {h['param']: h for h in self.tgt.get('hooks', [])}
         for h in d.get('hooks', []):
@@ -1005,9 +1305,11 @@ class Exec:
         for ty, dn in d.get('dicts', {}).items():
             if self.tgt.get('dicts', {}).get(ty) != dn:
                 self.err('callee %s needs dictionary %s' % (d['name'], dn))
-        if len(args) != len(d['args']):
+        if vals is None:
+            vals = [self.rv(self.eval(a, env)) for a in args]
+        if len(vals) != len(d['args']):
             self.err('%s: expected %d arguments' % (d['fn'], len(d['args'])))
-        vals = [self.rv(self.eval(a, env)) for a in args]
+        vals = [self.coerce(v, t) for v, (_, t, _) in zip(vals, d['args'])]
         for v, (_, t, _) in zip(vals, d['args']):
             if v.ty != t:
                 self.err('%s: argument of type %s, expected %s' % (d['fn'], v.ty, t))
@@ -1019,7 +1321,16 @@ class Exec:
         a += [self.whole(v) for v in vals]
         text = app(' '.join(pre), *a)
         if d.get('may_panic'):
-            self.err('call of a function that may panic (%s)' % d['name'])
+            if not self.tgt.get('may_panic') or d['ret'] == 'self':
+                self.err('call of a function that may panic (%s)' % d['name'])
+            n = self.fresh('r')
+            self.cur.append(('bindres', text, n))
+            return Val(d['ret'], expr=n)
+        if d['ret'] == 'self' and d.get('byvalue'):
+            # `fn f(mut self) -> Self` on a Copy value: the receiver is not changed
+            if recv_place is None:
+                self.err('%s needs a receiver' % d['fn'])
+            return Val(d['selfty'], expr=text)
         if d['ret'] == 'self':
             if recv_place is None:
                 self.err('%s needs a receiver' % d['fn'])
@@ -1027,8 +1338,114 @@ class Exec:
             return Ref(recv_place[0], recv_place[1])
         return Val(d['ret'], expr=text)
 
+    def coerce(self, v, want):
+        """an Affine struct where the callee takes the point through `.xy()` (Option<(x, y)>)"""
+        if v.ty == 'SWAffS' and want == 'SWAff' and ('SWAffS', 'xy') in self.methods():
+            d = self.methods()[('SWAffS', 'xy')]
+            return Val('SWAff', expr=app('%s F' % d['name'], self.whole(v)))
+        return v
+
+    def closure_value(self, clo, payload, env):
+        """run a closure `|x| e` / `|(a, b)| { ..; e }` on a payload value; returns the value of the body"""
+        if clo[0] != 'closure' or len(clo[1]) != 1:
+            self.err('unsupported closure')
+        pat = clo[1][0]
+        env.scopes.append({})
+        if isinstance(pat, tuple):
+            if payload.ty != 'PairK' or len(pat) != 2:
+                self.err('tuple closure parameter on a %s' % payload.ty)
+            pv = self.explode(payload)
+            for n, f in zip(pat, ('0', '1')):
+                env.declare(n, Slot(self.bind(n, pv.fields[f]), n))
+        else:
+            env.declare(pat, Slot(self.bind(pat, payload), pat))
+        stmts, tail = block_value(clo[2])
+        if tail is None:
+            self.err('closure without a value')
+        for st in stmts:
+            if st[0] not in ('let', 'assign', 'expr'):
+                self.err('control flow inside a closure')
+            self.simple(st, env)
+        v = self.eval(tail, env)
+        v = self.rv(v)
+        env.scopes.pop()
+        return v
+
+    def eval_chain(self, e, env):
+        """Option combinator chain in return position (targets with optchain=True): the payload on the
+        `Some` path; every `None` exit returns None from the function"""
+        none = 'GRet None' if self.tgt.get('may_panic') else 'None'
+        if e[0] == 'mcall' and e[2] in ('map', 'and_then') and len(e[3]) == 1:
+            payload = self.eval_chain(e[1], env)
+            v = self.closure_value(e[3][0], payload, env)
+            if e[2] == 'map':
+                if v.ty not in ('K', 'bool') + tuple(TYPES):
+                    self.err('`.map` closure returning a %s' % v.ty)
+                return v
+            if v.ty != 'optsqrt':
+                self.err('`.and_then` closure must end in `.sqrt()`')
+            n = self.fresh('r')
+            self.cur.append(('matchopt', v.expr, n, none))
+            return Val('K', expr=n)
+        o = self.rv(self.eval(e, env))
+        if o.ty == 'optinv':
+            x = self.bind('n', Val('K', expr=o.expr))
+            self.cur.append(('guardv', app('fis0 F', x.expr), none))
+            return Val('K', expr=app('finv F', x.expr))
+        if o.ty == 'optsqrt':
+            n = self.fresh('r')
+            self.cur.append(('matchopt', o.expr, n, none))
+            return Val('K', expr=n)
+        if o.ty.startswith('opt:') and o.ty[4:] in TYPES:
+            n = self.fresh('r')
+            self.cur.append(('matchopt', o.expr, n, none))
+            return Val(o.ty[4:], expr=n)
+        self.err('unsupported Option chain on a %s' % o.ty)
+
     def eval_mcall(self, e, env):
         _, recv, name, args = e
+        if name in ('clone', 'as_ref', 'into_bigint') and not args:
+            v = self.rv(self.eval(recv, env))
+            if name != 'clone' and v.ty != 'Scalar':
+                self.err('`.%s()` on a %s' % (name, v.ty))
+            return v
+        if name == 'then_some' and len(args) == 1:
+            c = self.rv(self.eval(recv, env))
+            v = self.rv(self.eval(args[0], env))
+            if c.ty != 'bool' or v.ty not in TYPES:
+                self.err('unsupported `.then_some`')
+            return Val('opt:' + v.ty, expr='(if %s then Some %s else None)' % (c.expr, self.whole(v)))
+        if name in ('sqrt', 'legendre') and not args and name in self.hooks:
+            v = self.rv(self.eval(recv, env))
+            if v.ty != 'K':
+                self.err('`.%s()` on a %s' % (name, v.ty))
+            if name == 'legendre':
+                return Val('legendre', expr=self.whole(v))
+            return Val('optsqrt', expr=app(self.hooks['sqrt']['param'], self.whole(v)))
+        if name == 'is_qr' and not args and 'legendre' in self.hooks:
+            v = self.rv(self.eval(recv, env))
+            if v.ty != 'legendre':
+                self.err('`.is_qr()` on something else than `x.legendre()`')
+            return Val('bool', expr=app(self.hooks['legendre']['param'], v.expr))
+        if name == 'expect' and len(args) == 1 and args[0][0] == 'str':
+            return self.eval_mcall(('mcall', recv, 'unwrap', []), env)
+        if name == 'unwrap' and not args and 'sqrt' in self.hooks:
+            o = self.rv(self.eval(recv, env))
+            if o.ty == 'optsqrt':
+                if not self.tgt.get('may_panic'):
+                    self.err('`.unwrap()` in a function not declared may_panic')
+                n = self.fresh('r')
+                self.cur.append(('matchopt', o.expr, n, 'GPanic'))
+                return Val('K', expr=n)
+            if o.ty != 'optinv':
+                self.err('`.unwrap` on a %s' % o.ty)
+            x = self.bind('n', Val('K', expr=o.expr))
+            self.cur.append(('guard', app('fis0 F', x.expr)))
+            return Val('K', expr=app('finv F', x.expr))
+        if self.tgt.get('group_ops'):
+            r = self.group_mcall(recv, name, args, env)
+            if r is not None:
+                return r
         # methods that do not look at the receiver's value
         if name == 'borrow' and not args:
             return self.eval(recv, env)
@@ -1113,7 +1530,7 @@ class Exec:
             if (rty, name) in self.method_hooks():
                 h = self.method_hooks()[(rty, name)]
                 av = [self.rv(self.eval(a, env)) for a in args]
-                if [v.ty for v in av] != h.get('args', []):
+                if [('usize' if v.ty == 'int' else v.ty) for v in av] != h.get('args', []):
                     self.err('%s: unexpected arguments' % name)
                 self.write(p[0], p[1], Val(rty, expr=app(h['param'], self.whole(self.read(*p)))))
                 return Ref(p[0], p[1])
@@ -1148,6 +1565,42 @@ class Exec:
             return Val(v.ty, expr=app('%s %s' % (f, D), w))
         self.err('unsupported method `.%s` on a value of type %s' % (name, v.ty))
 
+    def group_mcall(self, recv, name, args, env):
+        """phase 3: methods on points (Affine structs / Projective) in targets with group_ops=True"""
+        ph = {(h['recv'], h['rust']): h for h in self.tgt.get('hooks', []) if h['kind'] == 'pmethod'}
+        p = self.place(recv, env)
+        v = self.read(*p) if p is not None else None
+        if v is None:
+            v = self.rv(self.eval(recv, env))
+        if (v.ty, name) in ph:
+            h = ph[(v.ty, name)]
+            av = [self.rv(self.eval(a, env)) for a in args]
+            if [a.ty for a in av] != h['args']:
+                self.err('%s: unexpected arguments' % name)
+            return Val(h['ret'], expr=app(h['param'], self.whole(v), *[self.whole(a) for a in av]))
+        m = self.methods()
+        tmp = (Slot(v, 'tmp'), [])
+        if name == 'eq' and len(args) == 1:
+            a = self.rv(self.eval(args[0], env))
+            key = (v.ty, 'eq' if a.ty == v.ty else 'eq_' + a.ty)
+            if key in m:
+                return self.call_target(m[key], tmp, [], env, vals=[a])
+            self.err('no translated `eq` for %s and %s' % (v.ty, a.ty))
+        if name == 'into_group' and not args and (self.tgt.get('proj_of', {}).get(v.ty), 'from') in m:
+            return self.call_target(m[(self.tgt['proj_of'][v.ty], 'from')], None, [], env, vals=[v])
+        if name in ('into', 'into_affine') and not args and (self.tgt.get('aff_of', {}).get(v.ty), 'from') in m:
+            return self.call_target(m[(self.tgt['aff_of'][v.ty], 'from')], None, [], env, vals=[v])
+        if name == 'double' and not args and (v.ty, 'double_in_place') in m:
+            # AdditiveGroup::double(&self) = { let mut c = *self; c.double_in_place(); c }
+            sl = Slot(v, 'tmp')
+            self.call_target(m[(v.ty, 'double_in_place')], (sl, []), [], env)
+            return sl.val
+        if name == 'neg' and not args and (v.ty, 'neg') in m and m[(v.ty, 'neg')].get('byvalue'):
+            return self.call_target(m[(v.ty, 'neg')], tmp, [], env)
+        if (v.ty, name) in m and m[(v.ty, name)]['ret'] != 'self':
+            return self.call_target(m[(v.ty, name)], tmp, args, env)
+        return None
+
     def method_hooks(self):
         return {(h['recv'], h['rust']): h for h in self.tgt.get('hooks', []) if h['kind'] == 'method'}
 
@@ -1163,7 +1616,7 @@ class Exec:
                 env.declare(name, Slot(v, name))          # a reference: alias of the place
                 return
             v = self.rv(v)
-            if v.ty in ('optinv', 'optxy', 'intarr', 'int', 'nat') or v.ty.startswith('opt:'):
+            if v.ty in ('optinv', 'optxy', 'intarr', 'int', 'nat', 'optsqrt', 'legendre', 'str') or v.ty.startswith('opt:'):
                 self.err('unsupported let of a %s' % v.ty)
             if v.ty == 'arr':
                 env.declare(name, Slot(v, name))
@@ -1191,6 +1644,29 @@ class Exec:
         if s[0] == 'expr':
             self.eval(s[1], env)
             return
+        if s[0] == 'letdecl':
+            env.declare(s[1], Slot(None, s[2]))
+            return
+        if s[0] == 'assigntuple':
+            vals = [self.rv(self.eval(x, env)) for x in s[2]]
+            for n, v in zip(s[1], vals):
+                sl = env.lookup(n)
+                if sl is None or sl.val is not None:
+                    self.err('internal: tuple assignment to `%s`' % n)
+                self.write(sl, [], v)
+            return
+        if s[0] == 'dassert':
+            c = self.rv(self.eval(s[1], env))
+            if c.ty != 'bool':
+                self.err('`debug_assert!` on a non-boolean')
+            if not self.tgt.get('may_panic'):
+                self.err('`debug_assert!` in a function not declared may_panic')
+            m = re.match(r'^negb (\(.*\)|[A-Za-z_][A-Za-z0-9_\']*)$', c.expr)
+            if m and (ATOM.match(m.group(1)) or balanced(m.group(1)[1:-1])):
+                self.cur.append(('guard', m.group(1)))
+            else:
+                self.cur.append(('guard', app('negb', c.expr)))
+            return
         self.err('internal: not a simple statement')
 
     # ---- rendering
@@ -1203,7 +1679,18 @@ class Exec:
                 out.append('%sif %s then GPanic else' % (ind, l[1]))
             elif l[0] == 'raw':
                 out += [ind + x for x in l[1]]
+            elif l[0] == 'matchopt':
+                out.append('%smatch %s with None => %s | Some %s =>' % (ind, l[1], l[3], l[2]))
+            elif l[0] == 'bindres':
+                out.append('%smatch %s with GPanic => GPanic | GRet %s =>' % (ind, l[1], l[2]))
+            elif l[0] == 'guardv':
+                out.append('%sif %s then %s else' % (ind, l[1], l[2]))
         return out
+
+    def close(self, lets, ind, body):
+        """render(lets) + body + the `end`s of the matches opened in lets"""
+        n = sum(1 for l in lets if l[0] in ('matchopt', 'bindres'))
+        return self.render(lets, ind) + body + [ind + 'end'] * n
 
     def result(self, env, v):
         """final value of the function"""
@@ -1232,35 +1719,36 @@ class Exec:
         try:
             for i, s in enumerate(stmts):
                 rest = stmts[i + 1:]
-                if s[0] in ('let', 'assign', 'expr'):
+                if s[0] in ('let', 'assign', 'expr', 'letdecl', 'assigntuple', 'dassert'):
                     self.simple(s, env)
                     continue
                 if s[0] == 'return':
                     v = None
-                    if s[1] is not None:
+                    if s[1] is not None and self.tgt.get('optchain') and s[1][0] == 'mcall' and s[1][2] in ('map', 'and_then'):
+                        pv = self.eval_chain(s[1], env)
+                        v = Val('opt:' + pv.ty, expr=app('Some', self.whole(pv)))
+                    elif s[1] is not None:
                         v = self.eval(s[1], env)
                         v = None if self.tgt['ret'] == 'self' else self.rv(v)
                     t = self.result(env, v)
-                    return self.render(lets, ind) + [ind + t]
+                    return self.close(lets, ind, [ind + t])
                 if s[0] == 'block':
                     env.scopes.append({})
                     kk = K(lambda e2, i2, rest=rest: self.run(rest, e2, k, i2), k.trivial and self.trivial_rest(rest))
                     body = self.run(tailless(s[1]) + [('popscope',)], env, kk, ind)
-                    return self.render(lets, ind) + body
+                    return self.close(lets, ind, body)
                 if s[0] == 'if':
                     c = self.rv(self.eval(s[1], env))
                     if c.ty != 'bool':
                         self.err('`if` on a non-boolean')
                     th = tailless(s[2])
                     el = tailless(s[3]) if s[3] is not None else []
-                    head = self.render(lets, ind)
-                    return head + self.do_if(c.expr, th, el, rest, env, k, ind)
+                    return self.close(lets, ind, self.do_if(c.expr, th, el, rest, env, k, ind))
                 if s[0] == 'iflet':
                     _, (a, b), e, th, el = s
                     o = self.rv(self.eval(e, env))
                     if o.ty != 'optxy':
                         self.err('`if let Some((a, b))` on something else than `.xy()`')
-                    head = self.render(lets, ind)
                     kk = K(lambda e2, i2: self.run(rest, e2, k, i2), k.trivial and self.trivial_rest(rest))
                     if not (kk.trivial or contains_return(th) or (el and contains_return(el))):
                         self.err('`if let` followed by further statements is not supported')
@@ -1271,13 +1759,13 @@ class Exec:
                     e1.declare(b, Slot(Val('K', expr=nb), b))
                     t1 = self.run(tailless(th) + [('popscope',)], e1, kk, ind + '    ')
                     t2 = self.run((tailless(el) if el else []), e2, kk, ind + '    ')
-                    return head + [ind + 'match %s with' % o.expr, ind + '| Some (%s, %s) =>' % (na, nb)] + t1 + \
-                        [ind + '| None =>'] + t2 + [ind + 'end']
+                    return self.close(lets, ind, [ind + 'match %s with' % o.expr, ind + '| Some (%s, %s) =>' % (na, nb)] + t1 +
+                                      [ind + '| None =>'] + t2 + [ind + 'end'])
                 if s[0] == 'popscope':
                     env.scopes.pop()
                     continue
                 self.err('unsupported statement %r' % (s[0],))
-            return self.render(lets, ind) + k.fn(env, ind)
+            return self.close(lets, ind, k.fn(env, ind))
         finally:
             self.cur = saved
 
@@ -1286,7 +1774,7 @@ class Exec:
 
     def do_if(self, cond, th, el, rest, env, k, ind):
         kk = K(lambda e2, i2: self.run(rest, e2, k, i2), k.trivial and self.trivial_rest(rest))
-        dup = kk.trivial or contains_return((th, None)) or contains_return((el, None))
+        dup = kk.trivial or contains_return((th, None)) or contains_return((el, None)) or contains_exit(th) or contains_exit(el)
         if dup:
             e1, e2 = env.clone(), env.clone()
             t1 = self.branch(th, e1, kk, ind + '  ')
@@ -1307,6 +1795,15 @@ class Exec:
         # differing places (slot level; field level when every leaf has the struct field-wise)
         items = []
         for key, sl in env.slots():
+            if sl.val is None:
+                leaves = [self.slot_by_key(e, key).val for _, e in caps]
+                if all(v is None for v in leaves):
+                    continue
+                if not all(isinstance(v, Val) for v in leaves) or len(set(v.ty for v in leaves)) != 1 \
+                   or leaves[0].ty not in ('K', 'bool') + tuple(TYPES):
+                    self.err('variable `%s` is not initialised in every branch' % sl.hint)
+                items.append((key, [], leaves[0].ty))
+                continue
             if not isinstance(sl.val, Val):
                 continue
             leaves = [self.slot_by_key(e, key).val for _, e in caps]
@@ -1402,7 +1899,7 @@ class Exec:
         for h in t.get('hooks', []):
             if h['kind'] == 'boolconst':
                 h['args_ast'] = [Parser(tokenize(a), t['name']).expr(0) for a in h['args_src']]
-        stmts = tailify(body)[0]
+        stmts = Lifter(t['name']).stmts(tailify(body)[0])
         final = K(lambda e, i2: [i2 + self.result(e, None)], True)
         lines = self.run(stmts, env, final, '  ')
         ret = t['ret']
@@ -1423,6 +1920,8 @@ class Exec:
                 hp.append('(%s : %s -> %s)' % (h['param'], gty(h['recv']), gty(h['recv'])))
             elif h['kind'] == 'inplace2':
                 hp.append('(%s : T -> T) (%s : T -> T)' % (h['param'], h['param2']))
+            elif h['kind'] == 'pmethod':
+                hp.append('(%s : %s)' % (h['param'], ' -> '.join(gty(x) for x in [h['recv']] + h['args'] + [h['ret']])))
             else:
                 hp.append('(%s : %s)' % (h['param'], ' -> '.join(gty(x) for x in [a for a in h['args'] if a != 'usize'] + [h['ret']])))
         head = 'Definition %s {T : Type} (F : Fops T) %s : %s :=' % (t['name'], ' '.join(hp + binders), rty)
@@ -1695,6 +2194,135 @@ NO_METHOD = {'gen_quad_double_in_place', 'gen_quad_neg_in_place', 'gen_cubic_dou
              'gen_fp6_2over3_mul_by_034', 'gen_fp6_2over3_mul_by_014', 'gen_fp12_mul_by_034', 'gen_fp12_mul_by_014',
              'gen_fp12_cyclotomic_square_in_place', 'gen_quad_mul_assign', 'gen_cubic_mul_assign'}
 
+SWU = 'ec/src/hashing/curve_maps/swu.rs'
+ELL2 = 'ec/src/hashing/curve_maps/elligator2.rs'
+SWM = 'ec/src/models/short_weierstrass/mod.rs'
+TEM = 'ec/src/models/twisted_edwards/mod.rs'
+SQRT = H('sqrt', 'fn', 'sqrt', ['K'], 'opt:K')
+LEG = H('legendre', 'fn', 'is_qr', ['K'], 'bool')
+PARITY = H('parity', 'fn', 'parity', ['K'], 'bool')
+LT = H('<', 'fn', 'flt', ['K', 'K'], 'bool')
+LE = H('<=', 'fn', 'fle', ['K', 'K'], 'bool')
+SW_CURVE = [H('COEFF_A', 'const', 'coeff_a'), H('mul_by_a', 'fn', 'mul_by_a', ['K']), H('add_b', 'fn', 'add_b', ['K'])]
+
+# phase-1/2 definitions (GenField.v) that the phase-3 targets may call
+CALLABLE2 = {
+    'gen_sw_aff_new_unchecked': {}, 'gen_sw_aff_is_on_curve': {}, 'gen_te_aff_is_on_curve': {},
+    'gen_sw_is_zero': {}, 'gen_te_is_zero': {}, 'gen_sw_eq': {}, 'gen_sw_neg': {'byvalue': True},
+    'gen_sw_from_affine': {}, 'gen_sw_into_affine': {}, 'gen_te_into_affine': {},
+}
+
+TARGETS2 = [
+    # ---- A: hash-to-curve maps
+    dict(name='gen_swu_map_to_curve', file=SWU, impl=r'impl<P: SWUConfig> MapToCurve<Projective<P>> for SWUMap<P>',
+         fn='map_to_curve', method=False, selfty=None, args=[('element', 'K', 'u')], ret='SWAffS', may_panic=True,
+         result_ok=True, ctors={'Affine': 'SWAffS'},
+         hooks=[SQRT, LEG, PARITY, H('COEFF_B', 'const', 'coeff_b'), H('ZETA', 'const', 'zeta')] + SW_CURVE),
+    dict(name='gen_elligator2_map_to_curve', file=ELL2,
+         impl=r'impl<P: Elligator2Config> MapToCurve<Projective<P>> for Elligator2Map<P>',
+         fn='map_to_curve', method=False, selfty=None, args=[('element', 'K', 'u')], ret='TEAff', may_panic=True,
+         result_ok=True, ctors={'Affine': 'TEAff'},
+         hooks=[SQRT, LEG, PARITY, H('COEFF_B', 'const', 'mont_b'), H('COEFF_A_OVER_COEFF_B', 'const', 'j_on_k'),
+                H('ONE_OVER_COEFF_B_SQUARE', 'const', 'ksq_inv'), H('Z', 'const', 'z')] + TE_HOOKS),
+    # ---- B: coordinate recovery (point decompression) and the sign flags
+    dict(name='gen_sw_get_ys_from_x_unchecked', file=SWA, impl=r'impl<P: SWCurveConfig> Affine<P>', fn='get_ys_from_x_unchecked',
+         method=False, selfty='SWAffS', args=[('x', 'K', 'x')], ret='opt:PairK', hooks=[SQRT, LT] + SW_CURVE),
+    dict(name='gen_sw_get_point_from_x_unchecked', file=SWA, impl=r'impl<P: SWCurveConfig> Affine<P>',
+         fn='get_point_from_x_unchecked', method=False, selfty='SWAffS', optchain=True,
+         args=[('x', 'K', 'x'), ('greatest', 'bool', 'greatest')], ret='opt:SWAffS', hooks=[SQRT, LT] + SW_CURVE),
+    dict(name='gen_sw_to_flags', file=SWA, impl=r'impl<P: SWCurveConfig> Affine<P>', fn='to_flags',
+         selfty='SWAffS', selfparam='A', selfnames=['x', 'y', 'inf'], args=[], ret='enum:SWFlags',
+         enums={'SWFlags': 'SWFlags'}, hooks=[LE]),
+    dict(name='gen_te_get_xs_from_y_unchecked', file=TEA, impl=r'impl<P: TECurveConfig> Affine<P>', fn='get_xs_from_y_unchecked',
+         method=False, selfty='TEAff', optchain=True, args=[('y', 'K', 'y')], ret='opt:PairK',
+         hooks=[SQRT, LE, H('COEFF_A', 'const', 'coeff_a'), H('COEFF_D', 'const', 'coeff_d')]),
+    dict(name='gen_te_get_point_from_y_unchecked', file=TEA, impl=r'impl<P: TECurveConfig> Affine<P>',
+         fn='get_point_from_y_unchecked', method=False, selfty='TEAff', optchain=True,
+         args=[('y', 'K', 'y'), ('greatest', 'bool', 'greatest')], ret='opt:TEAff',
+         hooks=[SQRT, LE, H('COEFF_A', 'const', 'coeff_a'), H('COEFF_D', 'const', 'coeff_d')]),
+    dict(name='gen_te_flags_from_x_coordinate', file='ec/src/models/twisted_edwards/serialization_flags.rs',
+         impl=r'impl TEFlags', fn='from_x_coordinate', method=False, selfty=None, args=[('x', 'K', 'x')],
+         ret='enum:TEFlags', enums={'Self': 'TEFlags'}, hooks=[LE]),
+    # ---- C: subgroup tests, cofactor clearing, endomorphisms (scalar multiplications are parameters)
+    dict(name='gen_sw_aff_xy', file=SWA, impl=r'impl<P: SWCurveConfig> AffineRepr for Affine<P>', fn='xy',
+         selfty='SWAffS', selfparam='A', selfnames=['x', 'y', 'inf'], args=[], ret='opt:PairK', hooks=[]),
+    dict(name='gen_sw_eq_affine', file=SWG, impl=r'impl<P: SWCurveConfig> PartialEq<Affine<P>> for Projective<P>', fn='eq',
+         callname='eq_SWAffS', args=[('other', 'SWAffS', 'A')], argnames={'other': ['x2', 'y2', 'inf2']}, ret='bool',
+         group_ops=True, proj_of={'SWAffS': 'SWProj'}, hooks=[], **SWN),
+    dict(name='gen_sw_default_is_in_correct_subgroup', file=SWM, impl=r'pub trait SWCurveConfig\b',
+         fn='is_in_correct_subgroup_assuming_on_curve', method=False, selfty=None, group_ops=True,
+         args=[('item', 'SWAffS', 'A')], argnames={'item': ['x', 'y', 'inf']}, ret='bool',
+         hooks=[H('cofactor_is_one', 'boolconst', 'cofactor_is_one', args_src=[]),
+                H('Self::ScalarField::characteristic', 'const', 'r_char', ret='Scalar', call=True),
+                H('mul_affine', 'fn', 'mul_affine', ['SWAffS', 'Scalar'], 'SWProj')]),
+    dict(name='gen_te_default_is_in_correct_subgroup', file=TEM, impl=r'pub trait TECurveConfig\b',
+         fn='is_in_correct_subgroup_assuming_on_curve', method=False, selfty=None, group_ops=True,
+         args=[('item', 'TEAff', 'A')], argnames={'item': ['x', 'y']}, ret='bool',
+         hooks=[H('Self::ScalarField::characteristic', 'const', 'r_char', ret='Scalar', call=True),
+                H('mul_affine', 'fn', 'mul_affine', ['TEAff', 'Scalar'], 'TEProj')]),
+    dict(name='gen_sw_aff_mul_by_cofactor_to_group', file=SWA, impl=r'impl<P: SWCurveConfig> AffineRepr for Affine<P>',
+         fn='mul_by_cofactor_to_group', selfty='SWAffS', selfparam='A', selfnames=['x', 'y', 'inf'], args=[], ret='SWProj',
+         hooks=[H('Self::Config::COFACTOR', 'const', 'cofactor', ret='Scalar'),
+                H('mul_affine', 'fn', 'mul_affine', ['SWAffS', 'Scalar'], 'SWProj')]),
+    dict(name='gen_bls12_381_g1_endomorphism', file='curves/bls12_381/src/curves/g1.rs', impl='', fn='endomorphism',
+         method=False, selfty='SWAffS', args=[('p', 'SWAffS', 'A')], argnames={'p': ['x', 'y', 'inf']}, ret='SWAffS',
+         hooks=[H('BETA', 'const', 'beta')]),
+    dict(name='gen_bls12_381_g1_is_in_correct_subgroup', file='curves/bls12_381/src/curves/g1.rs',
+         impl=r'impl SWCurveConfig for Config', fn='is_in_correct_subgroup_assuming_on_curve', method=False, selfty=None,
+         group_ops=True, args=[('p', 'SWAffS', 'A')], argnames={'p': ['x', 'y', 'inf']}, ret='bool',
+         hooks=[H('crate::Config::X', 'const', 'x_abs', ret='Scalar'),
+                H('mul_bigint', 'pmethod', 'mul_affine', ['Scalar'], 'SWProj', recv='SWAffS'),
+                H('mul_bigint', 'pmethod', 'mul_projective', ['Scalar'], 'SWProj', recv='SWProj'),
+                H('endomorphism', 'fn', 'endomorphism', ['SWAffS'], 'SWAffS')]),
+    dict(name='gen_bls12_381_g1_clear_cofactor', file='curves/bls12_381/src/curves/g1.rs',
+         impl=r'impl SWCurveConfig for Config', fn='clear_cofactor', method=False, selfty=None, may_panic=True,
+         group_ops=True, aff_of={'SWProj': 'SWAffS'}, args=[('p', 'SWAffS', 'A')], argnames={'p': ['x', 'y', 'inf']},
+         ret='SWAffS',
+         hooks=[H('one_minus_x', 'fn', 'one_minus_x', [], 'Scalar'),
+                H('Config::mul_affine', 'fn', 'mul_affine', ['SWAffS', 'Scalar'], 'SWProj')]),
+    dict(name='gen_bls12_381_g2_p_power_endomorphism', file='curves/bls12_381/src/curves/g2.rs', impl=None,
+         fn='p_power_endomorphism', method=False, selfty='SWAffSQ', dicts={'Quad': 'F2'},
+         args=[('p', 'SWAffSQ', 'A')], argnames={'p': [['x0', 'x1'], ['y0', 'y1'], 'inf']}, ret='SWAffSQ',
+         hooks=[H('P_POWER_ENDOMORPHISM_COEFF_0', 'const', 'psi_coeff_0', ret='Quad'),
+                H('P_POWER_ENDOMORPHISM_COEFF_1', 'const', 'psi_coeff_1', ret='Quad'),
+                H('frobenius_map_in_place', 'method', 'frob_fp2', ['usize'], recv='Quad')]),
+    dict(name='gen_bls12_381_g2_double_p_power_endomorphism', file='curves/bls12_381/src/curves/g2.rs', impl=None,
+         fn='double_p_power_endomorphism', method=False, selfty='SWProj',
+         args=[('p', 'SWProj', 'P')], argnames={'p': ['x1', 'y1', 'z1']}, ret='SWProj',
+         hooks=[H('DOUBLE_P_POWER_ENDOMORPHISM_COEFF_0', 'const', 'psi2_coeff_0')]),
+    dict(name='gen_bls12_381_g2_is_in_correct_subgroup', file='curves/bls12_381/src/curves/g2.rs',
+         impl=r'impl SWCurveConfig for Config', fn='is_in_correct_subgroup_assuming_on_curve', method=False, selfty=None,
+         group_ops=True, args=[('point', 'SWAffS', 'A')], argnames={'point': ['x', 'y', 'inf']}, ret='bool',
+         hooks=[H('crate::Config::X', 'const', 'x_abs', ret='Scalar'),
+                H('crate::Config::X_IS_NEGATIVE', 'const', 'x_is_negative', ret='bool'),
+                H('mul_bigint', 'pmethod', 'mul_affine', ['Scalar'], 'SWProj', recv='SWAffS'),
+                H('p_power_endomorphism', 'fn', 'p_power_endomorphism', ['SWAffS'], 'SWAffS')]),
+    dict(name='gen_bn254_g2_p_power_endomorphism', file='curves/bn254/src/curves/g2.rs', impl=None,
+         fn='p_power_endomorphism', method=False, selfty='SWAffS',
+         args=[('p', 'SWAffS', 'A')], argnames={'p': ['x', 'y', 'inf']}, ret='SWAffS',
+         hooks=[H('P_POWER_ENDOMORPHISM_COEFF_0', 'const', 'psi_coeff_0'),
+                H('P_POWER_ENDOMORPHISM_COEFF_1', 'const', 'psi_coeff_1'),
+                H('frobenius_map_in_place', 'method', 'frob', ['usize'], recv='K')]),
+    dict(name='gen_bn254_g2_is_in_correct_subgroup', file='curves/bn254/src/curves/g2.rs',
+         impl=r'impl SWCurveConfig for Config', fn='is_in_correct_subgroup_assuming_on_curve', method=False, selfty=None,
+         group_ops=True, args=[('point', 'SWAffS', 'A')], argnames={'point': ['x', 'y', 'inf']}, ret='bool',
+         hooks=[H('SIX_X_SQUARED', 'const', 'six_x_squared', ret='Scalar'),
+                H('mul_bigint', 'pmethod', 'mul_affine', ['Scalar'], 'SWProj', recv='SWAffS'),
+                H('p_power_endomorphism', 'fn', 'p_power_endomorphism', ['SWAffS'], 'SWAffS')]),
+]
+
+HEADER2 = '''(* GENERATED by lib/xlate_field.py --table2 -- do not edit.
+   Phase 3: hash-to-curve maps, coordinate recovery, subgroup / cofactor code and more tower helpers of
+   /repo, one Gallina definition per Rust function, re-generated from the current source text on every
+   check run.  Definitions only; the lemmas tying them to the models are in Gen/GenField2Specs.v.
+   `x.sqrt()`, `x.legendre().is_qr()`, `parity`, `<`, `<=`, scalar multiplications and configuration
+   constants are parameters.  GPanic: an `unwrap` / `expect` / `debug_assert!` / division by zero. *)
+From V Require Import Base.Field Gen.GenField.
+
+Inductive gen_swflags : Type := GPointAtInfinity | GYIsPositive | GYIsNegative.
+Inductive gen_teflags : Type := GXIsPositive | GXIsNegative.
+'''
+
 HEADER = '''(* GENERATED by lib/xlate_field.py -- do not edit.
    Field-level straight-line code of /repo (curve group law, extension-field towers), one Gallina
    definition per Rust function, re-generated from the current source text on every check run.
@@ -1715,20 +2343,25 @@ def split_defs(text):
     return out
 
 
-def translate_all(repo, prev_text=None):
+def translate_all(repo, prev_text=None, table=1):
     """per-target best effort: (text, failures).  A target that cannot be translated keeps its
     previous generated definition (failures = [(name, message)]); without a previous
-    definition for it the whole translation fails."""
+    definition for it the whole translation fails.  table=2: the phase-3 targets (GenField2.v),
+    which may call the phase-1/2 definitions listed in CALLABLE2."""
     defs = []
-    for t in TARGETS:
+    for t in (TARGETS if table == 1 else TARGETS2):
         t = dict(t)
         if t['name'] in NO_METHOD:
             t['method_lookup'] = False
         defs.append(t)
     prev = split_defs(prev_text) if prev_text else {}
-    out = [HEADER]
+    out = [HEADER if table == 1 else HEADER2]
     cache = {}
     done = []
+    if table == 2:
+        for t in TARGETS:
+            if t['name'] in CALLABLE2:
+                done.append(dict(t, **CALLABLE2[t['name']]))
     failures = []
     for t in defs:
         path = os.path.join(repo, t['file'])
@@ -1766,11 +2399,13 @@ def write_if_changed(path, text):
 
 
 if __name__ == '__main__':
-    repo = sys.argv[1] if len(sys.argv) > 1 else '/repo'
-    dst = sys.argv[2] if len(sys.argv) > 2 else '/verif/coq/Gen/GenField.v'
+    argv = [a for a in sys.argv[1:] if a != '--table2']
+    table = 2 if '--table2' in sys.argv[1:] else 1
+    repo = argv[0] if len(argv) > 0 else '/repo'
+    dst = argv[1] if len(argv) > 1 else ('/verif/coq/Gen/GenField.v' if table == 1 else '/verif/coq/Gen/GenField2.v')
     try:
         prev = open(dst).read() if os.path.exists(dst) else None
-        t, failures = translate_all(repo, prev)
+        t, failures = translate_all(repo, prev, table)
     except TranslateError as e:
         print('TRANSLATE-ERROR: %s' % e)
         sys.exit(3)
